@@ -145,6 +145,44 @@ for label, npar, mk in instances():
         except Exception as e:
             if it["numeric_fail"] is None:
                 it["numeric_fail"] = {"thetas": th[:npar], "representations": [f"raised {type(e).__name__}: {str(e)[:100]}"]}
+    # ---------------- parameter broadcasting: row i of every batched representation belongs to parameter value i
+    if npar >= 1 and it["numeric_fail"] is None:
+        try:
+            for B in (3, 4):            # 4 = dimension of a two-wire operator: a transposed result keeps a plausible shape
+                vals = [0.3 + 0.77 * i * (-1) ** i for i in range(B)]
+                rest = [0.41 + 0.2 * j for j in range(npar - 1)]
+                try:
+                    bop = mk([np.array(vals)] + rest)
+                    if getattr(bop, "batch_size", None) != B:
+                        break
+                    Mb = np.asarray(qp.matrix(bop, wire_order=list(bop.wires)))
+                except Exception:
+                    break               # the class does not support broadcasting: nothing claimed
+                singles = [np.asarray(qp.matrix(mk([v] + rest), wire_order=list(bop.wires))) for v in vals]
+                bfails = []
+                if Mb.shape != (B,) + singles[0].shape or not all(np.allclose(Mb[i], singles[i], atol=1e-8) for i in range(B)):
+                    bfails.append("matrix (broadcast)")
+                try:
+                    Eb = np.asarray(bop.eigvals())
+                    okE = Eb.shape == (B, singles[0].shape[0])
+                    if okE:
+                        for i in range(B):
+                            spec = list(np.linalg.eigvals(singles[i]))
+                            for e in Eb[i]:
+                                jbest = min(range(len(spec)), key=lambda j: abs(spec[j] - e))
+                                if abs(spec[jbest] - e) > 1e-6:
+                                    okE = False
+                                    break
+                                spec.pop(jbest)
+                    if not okE:
+                        bfails.append("eigvals (broadcast)")
+                except qp.operation.EigvalsUndefinedError:
+                    pass
+                if bfails:
+                    it["numeric_fail"] = {"thetas": [vals] + rest, "representations": bfails}
+                    break
+        except Exception as e:
+            it.setdefault("skipped", []).append(("broadcast", f"{type(e).__name__}: {str(e)[:80]}"))
     if op is None:
         continue
     ows = g_nats(range(k))
